@@ -1093,23 +1093,40 @@ fn dev_pool() -> Vec<Dev> {
 }
 
 /// value record kinds: 0 x_advance; 1 x_advance+x_placement; 2 all four; 3 x_advance + device; 4 empty
+/// value record kinds -> (value mask, device mask) over [x_placement, y_placement, x_advance, y_advance] (bit i = field i).
+/// Every one of the eight ValueRecord fields occurs alone and in combinations.
+const ALL_KINDS: [u64; 15] = [0, 1, 2, 3, 5, 6, 7, 8, 9, 10, 11, 12, 13, 14, 4];
+fn kind_mask(kind: u64) -> (u8, u8) {
+    match kind {
+        0 => (0b0100, 0),       // x_advance
+        1 => (0b0101, 0),       // x_advance + x_placement
+        2 => (0b1111, 0),       // all four values
+        3 => (0b0100, 0b0100),  // x_advance + its device
+        5 => (0b1000, 0b1000),  // y_advance + its device
+        6 => (0b0001, 0b0001),  // x_placement + its device
+        7 => (0b0010, 0b0010),  // y_placement + its device
+        8 => (0b1111, 0b1111),  // everything
+        9 => (0b1000, 0),       // y_advance only
+        10 => (0b0010, 0),      // y_placement only
+        11 => (0b0001, 0),      // x_placement only
+        12 => (0b1100, 0b1100), // both advances with devices
+        13 => (0b1111, 0b1000), // all values, device on y_advance only
+        14 => (0b0011, 0b0010), // placements, device on y_placement only
+        _ => (0, 0),            // 4: empty
+    }
+}
 fn mk_val(kind: u64, seed: i64, pool: &[Dev]) -> Val {
     let s = |k: i64| Some((((seed * 7 + k * 131) % 2001) - 1000) as i16);
+    let (vm, dm) = kind_mask(kind);
     let mut v = Val::default();
-    match kind {
-        0 => v.v[2] = s(1),
-        1 => {
-            v.v[2] = s(1);
-            v.v[0] = s(2);
+    for i in 0..4 {
+        if vm & (1 << i) != 0 {
+            v.v[i] = s(i as i64 + 1);
         }
-        2 => {
-            v.v = [s(1), s(2), s(3), s(4)];
+        if dm & (1 << i) != 0 {
+            // a different pool entry per field, so that swapped device offsets are visible
+            v.d[i] = pool[(seed.unsigned_abs() as usize + i) % pool.len()].clone();
         }
-        3 => {
-            v.v[2] = s(1);
-            v.d[2] = pool[(seed.unsigned_abs() as usize) % pool.len()].clone();
-        }
-        _ => {}
     }
     v
 }
@@ -1123,6 +1140,7 @@ fn mk_anchor(rng: &mut Rng, id: i64, pool: &[Dev], fancy: bool) -> Anc {
                 a.xd = rng.pick(pool).clone();
                 a.yd = rng.pick(pool).clone();
             }
+            3 => a.yd = rng.pick(pool).clone(),
             _ => {}
         }
     }
@@ -1130,13 +1148,18 @@ fn mk_anchor(rng: &mut Rng, id: i64, pool: &[Dev], fancy: bool) -> Anc {
 }
 
 fn rec_size(kind1: u64, kind2: u64) -> usize {
-    let f = |k: u64| match k { 0 => 2, 1 => 4, 2 => 8, 3 => 4, _ => 0 };
+    let f = |k: u64| {
+        let (vm, dm) = kind_mask(k);
+        2 * (vm.count_ones() + dm.count_ones()) as usize
+    };
     f(kind1) + f(kind2)
 }
 
 fn gen_pair_glyph_spec(rng: &mut Rng, target_bytes: usize, pool: &[Dev], contiguous_first: bool, mixed_formats: bool) -> Spec {
-    let k1 = if rng.chance(1, 4) { 3 } else { rng.below(3) };
-    let k2 = if rng.chance(1, 2) { 4 } else { rng.below(2) };
+    gen_pair_glyph_spec_k(rng, target_bytes, pool, contiguous_first, mixed_formats, None)
+}
+fn gen_pair_glyph_spec_k(rng: &mut Rng, target_bytes: usize, pool: &[Dev], contiguous_first: bool, mixed_formats: bool, kinds: Option<(u64, u64)>) -> Spec {
+    let (k1, k2) = kinds.unwrap_or_else(|| (*rng.pick(&ALL_KINDS[..14]), if rng.chance(1, 2) { 4 } else { *rng.pick(&ALL_KINDS) }));
     let rec = 2 + rec_size(k1, k2);
     let n1 = if target_bytes < 4000 { 1 + rng.below(12) as usize } else { 24 + rng.below(90) as usize };
     let n2 = (target_bytes / (n1 * rec)).max(1).min(4000);
@@ -1161,8 +1184,12 @@ fn gen_pair_glyph_spec(rng: &mut Rng, target_bytes: usize, pool: &[Dev], contigu
 }
 
 fn gen_pair_class_spec(rng: &mut Rng, target_bytes: usize, pool: &[Dev], with_conflict: bool) -> Spec {
-    let k1 = if rng.chance(1, 5) { 3 } else { rng.below(3) };
-    let k2 = if rng.chance(1, 2) { 4 } else { 0 };
+    gen_pair_class_spec_k(rng, target_bytes, pool, with_conflict, None)
+}
+fn gen_pair_class_spec_k(rng: &mut Rng, target_bytes: usize, pool: &[Dev], with_conflict: bool, kinds: Option<(u64, u64)>) -> Spec {
+    let (k1, k2) = kinds.unwrap_or_else(|| (*rng.pick(&ALL_KINDS[..14]), if rng.chance(1, 2) { 4 } else { *rng.pick(&ALL_KINDS) }));
+    // some rules of the subtable use another field set: the subtable's value formats are the UNION over its rules
+    let alt = kinds.map(|_| true).unwrap_or_else(|| rng.chance(1, 3));
     let cell = rec_size(k1, k2).max(2);
     let cells = (target_bytes / cell).max(1);
     let c1n = if target_bytes < 4000 { 1 + rng.below(5) as usize } else { 20 + rng.below(100) as usize };
@@ -1189,7 +1216,8 @@ fn gen_pair_class_spec(rng: &mut Rng, target_bytes: usize, pool: &[Dev], with_co
     for (i, a) in cls1.iter().enumerate() {
         for (j, b) in cls2.iter().enumerate() {
             if dense || rng.chance(3, 4) || j == 0 {
-                classes.push((a.clone(), b.clone(), mk_val(k1, (i * 1009 + j) as i64, pool), mk_val(k2, (i + j * 17) as i64, pool)));
+                let (q1, q2) = if alt && (i + j) % 4 == 3 { (0, 9) } else { (k1, k2) };
+                classes.push((a.clone(), b.clone(), mk_val(q1, (i * 1009 + j) as i64, pool), mk_val(q2, (i + j * 17) as i64, pool)));
             }
         }
     }
@@ -1218,20 +1246,29 @@ fn gen_pair_class_spec(rng: &mut Rng, target_bytes: usize, pool: &[Dev], with_co
 }
 
 fn gen_direct_pp1(rng: &mut Rng, target_bytes: usize) -> Spec {
-    // x_advance + x_advance_device(VariationIndex) on value record 1; 2+2+2 = 6 bytes per record + 6 per varidx table
+    let m = *rng.pick(&[(0b0100u8, 0u8), (0b1000, 0b1000), (0b0001, 0), (0b0010, 0b1000), (0b1111, 0b1111), (0b1100, 0b0100), (0b0100, 0)]);
+    gen_direct_pp1_k(rng, target_bytes, m.0, m.1)
+}
+/// a PairPosFormat1 table given directly; VariationIndex records on the fields of `m1` (value record 1) and `m2`
+/// (value record 2); uniform value formats within the table.
+fn gen_direct_pp1_k(rng: &mut Rng, target_bytes: usize, m1: u8, m2: u8) -> Spec {
+    let per = 2 + 10 * (m1.count_ones() + m2.count_ones()) as usize; // value + offset + 6-byte VariationIndex table
     let n1 = 12 + rng.below(30) as usize;
-    let n2 = (target_bytes / (n1 * 12)).max(1);
+    let n2 = (target_bytes / (n1 * per)).max(1);
     let mut sets = BTreeMap::new();
+    let mk = |mask: u8, i: usize, j: usize, which: u16| -> Val {
+        let mut v = Val::default();
+        for f in 0..4 {
+            if mask & (1 << f) != 0 {
+                v.v[f] = Some(((i * 37 + j + f * 11) % 3000) as i16 - 1500);
+                v.d[f] = Dev::VarIdx((i % 7) as u16 * 8 + f as u16 + which * 4, (j % 65000) as u16);
+            }
+        }
+        v
+    };
     for i in 0..n1 {
         let g1 = 3 + i as u16 * if rng.chance(1, 2) { 1 } else { 3 };
-        let recs: Vec<(u16, Val, Val)> = (0..n2)
-            .map(|j| {
-                let mut v = Val::default();
-                v.v[2] = Some(((i * 37 + j) % 3000) as i16);
-                v.d[2] = Dev::VarIdx((i % 7) as u16, (j % 65000) as u16);
-                (10 + j as u16, v, Val::default())
-            })
-            .collect();
+        let recs: Vec<(u16, Val, Val)> = (0..n2).map(|j| (10 + j as u16, mk(m1, i, j, 0), mk(m2, i, j, 1))).collect();
         sets.insert(g1, recs);
     }
     Spec::DirectPP1 { sets, vf: (Val::default(), Val::default()) }
@@ -1841,6 +1878,21 @@ fn main() {
         };
         cases.push(mk(format!("small-{}", i), vec![s], &mut rng));
     }
+    // every ValueRecord field set, in glyph-pair rules, class-pair rules (first and second record) and direct tables
+    for (n, k) in ALL_KINDS.iter().enumerate() {
+        let other = ALL_KINDS[(n * 7 + 3) % ALL_KINDS.len()];
+        let g = gen_pair_glyph_spec_k(&mut rng, 1500, &pool, n % 2 == 0, false, Some((*k, other)));
+        cases.push(mk(format!("fields-glyph-{}-{}", k, other), vec![g], &mut rng));
+        let c = gen_pair_class_spec_k(&mut rng, 1500, &pool, false, Some((*k, other)));
+        cases.push(mk(format!("fields-class-{}-{}", k, other), vec![c], &mut rng));
+        let c = gen_pair_class_spec_k(&mut rng, 1500, &pool, false, Some((other, *k)));
+        cases.push(mk(format!("fields-class-{}-{}", other, k), vec![c], &mut rng));
+    }
+    for f in 0..4u8 {
+        let d = gen_direct_pp1_k(&mut rng, 1500, 1 << f, 1 << ((f + 1) % 4));
+        cases.push(mk(format!("fields-direct-varidx-{}", f), vec![d], &mut rng));
+    }
+    cases.push(mk("fields-direct-varidx-all".into(), vec![gen_direct_pp1_k(&mut rng, 3000, 0b1111, 0b1111)], &mut rng));
     // overflowing: 1.2x .. 4x+ of 64 KiB, each kind; several lookups to force promotion
     let k = 65536usize;
     let mut big: Vec<(String, Vec<Spec>)> = vec![
